@@ -164,6 +164,11 @@ Theorem C03_lease_set_prefix_free : forall w l, wf w -> read_lease_set w = Ok l 
   forall k, (k < length w)%nat -> forall l', read_lease_set (firstn k w) <> Ok l'.
 Proof. exact read_lease_set_prefix_free. Qed.
 Print Assumptions C03_lease_set_prefix_free.
+(* non-vacuous: every input ReadLeaseSet accepts has such a serialisation *)
+Theorem C03_lease_set_accepted_prefix_free : forall d l, wf d -> read_lease_set d = Ok l ->
+  exists b, lease_set_bytes l = Ok b /\ read_lease_set b = Ok l /\
+    forall k, (k < length b)%nat -> forall l', read_lease_set (firstn k b) <> Ok l'.
+Proof. exact read_lease_set_accepted_prefix_free. Qed.
 (* the destination in front of a LeaseSet: whatever follows it can be replaced *)
 Theorem C03_replace_tail_destination_from_leaseset : forall d dest rem t', wf d -> wf t' ->
   read_destination_from_leaseset d = Ok (dest, rem) ->
